@@ -12,14 +12,18 @@
    labels.  Layers: lower chain (C02_lower_pass_contains), upper chain (C02_upper_chain_contains),
    pivot_protected, clause (c) complete (C02_hull_label_contains_all), dead_top / guard_irrelevant /
    HullNoOverflow, turn_strict + assembly (Proofs/HullStrict.v: strict_hullspec), one-column label.
-   The only _partial left: rotation form of hull_unique (vertex set and list up to permutation are
-   determined: C02_hull_vertices_unique; missing successor_unique).
+   Round 6: no _partial left.  successor_unique (C02_successor_unique) and the rotation form of
+   hull_unique (C02_hull_unique_rotation: two positively oriented polygons meeting HullSpec for the
+   same pixels are rotations of each other); the kernel always emits the positive sense
+   (C02_hull_label_pos), so any positively oriented polygon meeting the specification is a rotation
+   of the kernel's (C02_hull_label_unique).  A negatively oriented one is the reverse of such a
+   polygon; that variant is not stated.
    (stack_nodup is refuted: C02_stack_nodup_refuted.) *)
 From Coq Require Import ZArith List Bool Permutation.
 From Centro Require Import Base.Sx Model.Hull Spec.HullSpec
   Proofs.HullEmit Proofs.HullGeom Proofs.HullPerm Proofs.HullBatch Proofs.HullTop
   Proofs.HullOutline Proofs.HullUnique Proofs.HullBelow Proofs.HullAbove Proofs.HullCorrect
-  Proofs.HullImage Proofs.HullWrites Proofs.HullGuard Proofs.HullStrict Proofs.HullPoly Proofs.HullSweep Proofs.HullSweep44 Proofs.HullSweep34 Proofs.HullSweep53.
+  Proofs.HullImage Proofs.HullWrites Proofs.HullGuard Proofs.HullStrict Proofs.HullPoly Proofs.HullRotation Proofs.HullSweep Proofs.HullSweep44 Proofs.HullSweep34 Proofs.HullSweep53.
 Import ListNotations.
 Open Scope Z_scope.
 
@@ -219,6 +223,32 @@ Theorem C02_convex_hull_correct :
   end.
 Proof. exact convex_hull_correct. Qed.
 Print Assumptions C02_convex_hull_correct.
+
+(* successor_unique: in two positively oriented polygons meeting the specification for the same pixels
+   every common vertex has the same successor *)
+Theorem C02_successor_unique : forall S V V' a b c a' c', HullSpec S V -> HullSpec S V' -> pos V -> pos V' ->
+  (3 <= length V)%nat -> (3 <= length V')%nat ->
+  consecutive V a b c -> consecutive V' a' b c' -> c = c'.
+Proof. exact successor_unique. Qed.
+Print Assumptions C02_successor_unique.
+
+(* hull_unique, rotation form *)
+Theorem C02_hull_unique_rotation : forall S V V', HullSpec S V -> HullSpec S V' -> pos V -> pos V' ->
+  (3 <= length V)%nat -> exists k, V' = skipn k V ++ firstn k V.
+Proof. exact hull_unique_rotation. Qed.
+Print Assumptions C02_hull_unique_rotation.
+
+(* the kernel emits the positive sense, and its polygon is THE polygon up to the starting vertex *)
+Theorem C02_hull_label_pos : forall m pts slack, label_ok m pts -> 0 <= slack ->
+  (3 <= length (hull_label m pts slack))%nat -> pos (hull_label m pts slack).
+Proof. exact hull_label_pos. Qed.
+Print Assumptions C02_hull_label_pos.
+
+Theorem C02_hull_label_unique : forall m pts slack V', label_ok m pts -> 0 <= slack ->
+  HullSpec pts V' -> pos V' -> (3 <= length (hull_label m pts slack))%nat ->
+  exists k, V' = skipn k (hull_label m pts slack) ++ firstn k (hull_label m pts slack).
+Proof. exact hull_label_unique. Qed.
+Print Assumptions C02_hull_label_unique.
 
 (* the outline pre-filter only drops pixels that are no vertex of the hull of the full set *)
 Theorem C02_outline_keeps_extreme : forall S V v, HullSpec S V -> In v V ->
